@@ -496,6 +496,10 @@ func (v *VM) execute(context *Context) error {
 				return fmt.Errorf("can't call a value of type %T", top.Interface())
 			}
 			v.Stack[len(v.Stack)-1].Value = reflect.ValueOf(n)
+			if _, ok := v.Stack[len(v.Stack)-1].Expression.AnyExpression.(b6.CallExpression); !ok {
+				// Callees expect the frame below the arguments to carry a call expression
+				v.Stack[len(v.Stack)-1].Expression = v.Instructions[v.PC].Expression
+			}
 			if args, err = f.CallFromStack(context, n, args); err != nil {
 				return err
 			}
